@@ -41,6 +41,9 @@ type c06Case struct {
 	Steps  []c06Step `json:"steps"`
 	Term   string    `json:"term"`    // termination event kind
 	TermAt int       `json:"term_at"` // before step index TermAt (len(Steps) = at the end)
+	// NeverResume: a stalled consumer stays stalled after the termination event (a peer that never reads again). Only
+	// with Term=initCancel, where the handler has to return regardless: the outgoing stream dies with the initiator.
+	NeverResume bool `json:"never_resume,omitempty"`
 }
 
 var c06TermKinds = []string{"srcEOF", "srcErr", "initEOF", "initErr", "initCancel", "initSendFail", "srcSendFail", "srcSendEOF", "srcUnknownKind", "initUnknownKind", "openFail"}
@@ -205,8 +208,10 @@ func c06Run(t *testing.T, c c06Case) (out c06Outcome, verr error, herr error) {
 		// a consumer that was stalled resumes one virtual second later (a peer that never reads again keeps the
 		// stream legitimately open, so no claim is made for that)
 		time.Sleep(time.Second)
-		ss.Unstall()
-		cs.Unstall()
+		if !(c.NeverResume && c.Term == "initCancel") {
+			ss.Unstall()
+			cs.Unstall()
+		}
 		wait()
 		time.Sleep(2 * time.Second)
 		wait()
@@ -298,6 +303,12 @@ func c06Gen(t *rapid.T) c06Case {
 	}
 	c.Term = rapid.SampledFrom(c06TermKinds).Draw(t, "term")
 	c.TermAt = rapid.IntRange(0, n).Draw(t, "termAt")
+	if c.Term == "initCancel" && rapid.Bool().Draw(t, "neverResume") {
+		// the source has stopped reading for good, sync states pile up towards it, then the initiator goes away
+		c.NeverResume = true
+		c.Steps = append(append(append([]c06Step{}, c.Steps[:c.TermAt]...), c06Step{K: "stallSrc"}, c06Step{K: "ack", NoWait: true}, c06Step{K: "ack", NoWait: true}), c.Steps[c.TermAt:]...)
+		c.TermAt += 3
+	}
 	if rapid.Bool().Draw(t, "burst") {
 		// a burst in both directions right before the termination event, not quiesced
 		var burst []c06Step
